@@ -15,6 +15,16 @@ use super::{multi_output, validate_size};
 pub fn split_by(f: SigNode, by_scalar: bool, keep_empty: bool, env: &mut Uiua) -> UiuaResult {
     let delim = env.pop(1)?;
     let haystack = env.pop(2)?;
+    let unfused = |f: SigNode, delim: Value, haystack: Value, env: &mut Uiua| {
+        let mask = if by_scalar {
+            delim.is_ne(haystack.clone(), env)?
+        } else {
+            delim.mask(&haystack, env)?.not(env)?
+        };
+        env.push(haystack);
+        env.push(mask);
+        partition(f, env)
+    };
     // Only lists are split here, and only by a delimiter of the same kind of elements.
     // Everything else is done, or fails, the way the mask and the partition do it.
     let kind = |val: &Value| match val {
@@ -30,14 +40,7 @@ pub fn split_by(f: SigNode, by_scalar: bool, keep_empty: bool, env: &mut Uiua) -
         || kind(&haystack) != kind(&delim)
         || by_scalar && !(delim.rank() == 0 || delim.rank() == 1 && delim.row_count() == 1)
     {
-        let mask = if by_scalar {
-            delim.is_ne(haystack.clone(), env)?
-        } else {
-            delim.mask(&haystack, env)?.not(env)?
-        };
-        env.push(haystack);
-        env.push(mask);
-        return partition(f, env);
+        return unfused(f, delim, haystack, env);
     }
     if let Some(Primitive::Box) = f.node.as_primitive() {
         let val = haystack.generic_bin_ref(
@@ -55,6 +58,10 @@ pub fn split_by(f: SigNode, by_scalar: bool, keep_empty: bool, env: &mut Uiua) -
                 ))
             },
         )?;
+        // What there is when there are no pieces is for the partition to say
+        if val.is_empty() {
+            return unfused(f, delim, haystack, env);
+        }
         env.push(val);
     } else {
         let parts = haystack.generic_bin_ref(
@@ -72,6 +79,9 @@ pub fn split_by(f: SigNode, by_scalar: bool, keep_empty: bool, env: &mut Uiua) -
                 ))
             },
         )?;
+        if parts.is_empty() {
+            return unfused(f, delim, haystack, env);
+        }
         if let Some(Primitive::Identity) = f.node.as_primitive() {
             let val = env.rows_to_value(parts)?;
             env.push(val);
